@@ -70,6 +70,9 @@ structure Conn where
   peer : Peer
   cert : Option (List String)
   streams : List StreamRec
+  /-- `Peer().Address`: the dialled address of an outbound connection; inbound connections carry the remote ip:port, which is
+      never a contact address (left empty here) -/
+  addr : String := ""
   deriving Repr
 
 def hasProto (c : Conn) (p : String) : Bool := c.streams.any (fun s => s.proto == p)
